@@ -39,10 +39,9 @@ package environment
 //@ func (e *Environment) Assign [C03,C06]
 //@ requires [nonnil] e != nil
 //@ requires [canon] canon(value)
-//@ ensures [hit] old(envBound(e, name.Lexeme)) ==> objVals(envTable(old(envOwner(e, name.Lexeme)))) == store(old(objVals(envTable(envOwner(e, name.Lexeme)))), name.Lexeme, value)
-//@ ensures [hitframe] forall(r, Int, r != old(envTable(envOwner(e, name.Lexeme))) ==> objVals(r) == old(objVals(r)))
-//@ ensures [domframe] forall(r, Int, objDom(r) == old(objDom(r)))
-//@ ensures [miss] !old(envBound(e, name.Lexeme)) ==> forall(r, Int, objVals(r) == old(objVals(r)))
+//@ ensures [hit] old(envBound(e, name.Lexeme)) ==> curMV() == mvDefine(old(curMV()), old(envTable(envOwner(e, name.Lexeme))), name.Lexeme, value)
+//@ ensures [miss] !old(envBound(e, name.Lexeme)) ==> curMV() == old(curMV())
+//@ ensures [domframe] curMD() == old(curMD()) && curMC() == old(curMC())
 //@ ensures [diag] !old(envBound(e, name.Lexeme)) ==> stderrN == old(stderrN)+1 && diagLine(stderr[old(stderrN)]) == name.Line
 //@ ensures [quiet] old(envBound(e, name.Lexeme)) ==> stderrN == old(stderrN)
 //@ ensures [flag] utils.HadRuntimeError == (old(utils.HadRuntimeError) || !old(envBound(e, name.Lexeme)))
